@@ -531,6 +531,20 @@ class Interp:
             return a[1] is b[1]
         if a[0] == "obj" and b[0] == "obj":
             return a[1] is b[1]
+        # two closed sequences: the same kind, the same length, equal element by element
+        def seq_(v_):
+            if v_[0] == "list" and not (len(v_) > 2 and v_[2]):
+                return ("list", list(v_[1]))
+            if v_[0] == "c" and isinstance(v_[1], (list, tuple)):
+                return ("list" if isinstance(v_[1], list) else "tuple", [("c", y_) for y_ in v_[1]])
+            return None
+        sa_, sb_ = seq_(a), seq_(b)
+        if sa_ is not None and sb_ is not None and (a[0] == "list" or b[0] == "list"):
+            if {sa_[0], sb_[0]} == {"list", "tuple"} and a[0] == "c" and b[0] == "c":
+                return False
+            if len(sa_[1]) != len(sb_[1]):
+                return False
+            return all(self.equal(self.force(x_), self.force(y_), "%s[%d]" % (text, i_)) for i_, (x_, y_) in enumerate(zip(sa_[1], sb_[1])))
         if a[0] == "ext" and b[0] == "ext" and not a[2] and not b[2]:
             return a[1] == b[1]
         if (a[0] == "ext" and not a[2] and b[0] == "cls") or (b[0] == "ext" and not b[2] and a[0] == "cls"):
@@ -1362,6 +1376,10 @@ class Interp:
         elif b[0] == "cls":
             self.class_attrs[(b[1].qname, name)] = v
             return
+        elif b[0] in ("clsmethod", "bound") and self._function_of(b) is not None:
+            tgt = self._function_of(b)
+            self.__dict__.setdefault("_fn_attrs", {}).setdefault((tgt[0].qname, tgt[1]), {})[name] = v
+            return
         elif b[0] in ("ext", "fn"):
             # a store on an opaque object: recorded (a config object that is filled in and then written)
             self.emit("SETATTR", b, name, v)
@@ -2066,9 +2084,60 @@ class Interp:
             return self.LIB_CONST[(b[1].split(".")[-1].split(" ")[-1], name)]
         if k in ("ext", "fn", "unk", "unset", "many", "other"):
             return ("fn", "." + name, [b])
+        if k in ("bound", "clsmethod"):
+            # an attribute of a function of this repository (set by a decorator: `fn.event_callback = name`)
+            tgt = self._function_of(b)
+            if tgt is not None:
+                if name == "__name__":
+                    return ("c", tgt[1])
+                if name == "__self__" and k == "bound":
+                    return b[1]
+                if not (name.startswith("__") and name.endswith("__")):
+                    attrs_ = self.func_attrs(tgt[0], tgt[1])
+                    return attrs_.get(name, ("unset", name))
         if k == "bound" or k == "closure":
             return ("fn", "." + name, [])
         return ("fn", "." + name, [b])
+
+    def _function_of(self, v):
+        """(class, method name) of a bound method / function value of this repository, else None"""
+        if v[0] == "clsmethod":
+            kk, m = self.repo.find_method(v[1], v[2])
+            return (kk, v[2]) if m is not None else None
+        if v[0] == "bound":
+            r = self.force(v[1])
+            if r[0] == "obj" and r[1].cls is not None and r[1].id not in self.models and isinstance(v[2], str):
+                kk, m = self.repo.find_method(r[1].cls, v[2])
+                return (kk, v[2]) if m is not None else None
+        return None
+
+    def func_attrs(self, kc, name):
+        """attributes the decorators of method `name` of class kc leave on the function object: the decorators that are
+        classes / functions of this repository are applied, innermost first, as the class statement does; what they store
+        on the function they were handed is kept"""
+        table = self.__dict__.setdefault("_fn_attrs", {})
+        key = (kc.qname, name)
+        if key not in table:
+            table[key] = {}
+            fn = kc.methods.get(name)
+            val = ("clsmethod", kc, name)
+            for d in reversed(getattr(fn, "decorator_list", None) or []):
+                dn = unparse(d.func if isinstance(d, ast.Call) else d).split(".")[-1]
+                if dn in ("staticmethod", "classmethod", "property", "contextmanager", "lru_cache", "cache", "wraps", "setter", "getter", "deleter"):
+                    continue
+                try:
+                    denv = {"@module": kc.module, "@owner": kc}
+                    for n_ in {x_.id for x_ in ast.walk(d) if isinstance(x_, ast.Name)}:
+                        if n_ in kc.consts:          # a decorator is evaluated in the class body: its names come first
+                            denv[n_] = self.class_const_value(kc, kc, kc.consts[n_])
+                    dv = self.force(self.expr(d, denv, 1))
+                    if dv[0] in ("closure", "cls") or (dv[0] == "obj" and dv[1].cls is not None):
+                        val = self.force(self.apply(dv, [val], {}, {"@module": kc.module, "@owner": kc}, 1, None))
+                    if val[0] != "clsmethod" or (val[1], val[2]) != (kc, name):
+                        break       # the decorator returns something else: what that object carries is not followed
+                except (NeedAtom, _Raise, Budget, DomainGrew):
+                    break
+        return table[key]
 
     LIB_CONST = {("types", "FunctionType"): ("ext", "function", []), ("types", "LambdaType"): ("ext", "function", []), ("types", "MethodType"): ("ext", "method", [])}
     import string as _string
@@ -2531,6 +2600,10 @@ class Interp:
             return self.construct(fv[1], args, kwargs, env, depth, e)
         if k == "obj" and fv[1].id in self.models:
             return self.models[fv[1].id].apply(self, fv, args, kwargs, env, depth)
+        if k == "obj" and fv[1].cls is not None:
+            kk_, m_ = self.repo.find_method(fv[1].cls, "__call__")
+            if m_ is not None:
+                return self.call_function(m_, kk_, fv, args, kwargs, depth=depth + 1)
         if k == "fn" and fv[1].startswith(".") and len(fv[2]) == 1 and ((fv[2][0][0] == "ext" and not fv[2][0][1].startswith("module ")) or (fv[2][0][0] == "fn" and not fv[2][0][1].startswith("."))):
             # an attribute of an opaque object fetched first and called later (`f = self.manager.decrypt_msg; f(...)`):
             # the same as calling the method
@@ -2845,6 +2918,18 @@ class Interp:
                 return ("c", getattr(_binascii, name)(*[a[1] for a in args]))
             except Exception as x_:
                 raise _Raise(("ext", type(x_).__name__, []), "%s: %s" % (type(x_).__name__, x_))
+        if k == "ext" and recv[1].split(" ")[-1].split(".")[-1] == "inspect" and name == "getmembers" and args:
+            # inspect.getmembers(obj, inspect.ismethod) of an object of this repository: (name, bound method) for every
+            # method the class and its bases define, sorted by name
+            ov_ = self.force(args[0])
+            pred_ = args[1] if len(args) > 1 else kwargs.get("predicate")
+            pname_ = pred_[1].lstrip(".") if pred_ is not None and pred_[0] == "fn" else None
+            if ov_[0] == "obj" and ov_[1].cls is not None and ov_[1].id not in self.models and pname_ in ("ismethod", "isroutine"):
+                names_ = {}
+                for kx in reversed(self.repo.mro(ov_[1].cls)):
+                    for n_, f_ in kx.methods.items():
+                        names_[n_] = f_
+                return ("list", [("list", [("c", n_), ("bound", ov_, n_)]) for n_ in sorted(names_) if not (func_is_static(names_[n_]) and pname_ == "ismethod")])
         if k == "ext" and recv[1] == "dict" and name == "fromkeys" and args:
             items_ = self.iterate(self.force(args[0]))
             if items_ is not None and all(x[0] == "c" and _hashable(x[1]) for x in items_):
